@@ -28,9 +28,11 @@ LEVEL_NOTE = ("Trusted: Coq kernel, Go harness + Python glue. Modelled, not veri
               "lookup in DoltDB.Resolve (each commit is the head of its own branch). The closure walk picks the greatest address among equal-height "
               "candidates and the parents walk the least: both are deterministic and order independent, which is what the property demands; they can "
               "differ from each other (recorded in the evidence tag 'variants-differ'). FindClosureCommonAncestor is test-only code and is not modelled. "
-              "SQL dolt_merge_base() is not driven (it calls the same GetCommitAncestor).")
-THEOREMS = ["mb_closure_spec", "mb_parents_spec", "mb_common", "mb_maximal", "mb_sym", "mb_none_iff", "spec_walk", "walk_repeat_first_parent",
-            "can_ff_spec"]
+              "SQL dolt_merge_base() is not driven (it calls the same GetCommitAncestor). The oracle (Corr.v) is the property evaluated by brute force on "
+              "the input graph; a Coq theorem 'oracle accepts model_obs' is not stated for C19 (its parts are the theorems listed), so model/oracle "
+              "agreement on the generated cases rests on the evaluation itself.")
+THEOREMS = ["mb_common", "mb_maximal", "mb_sym", "mb_none_iff", "fca_total", "mb_closure_spec", "mb_parents_spec", "mb_closure_sym",
+            "mb_parents_sym", "spec_walk_thm", "walk_app", "walk_repeat_first_parent", "can_ff_spec", "can_ff_true_iff"]
 RULE = ("the C18 DAG generators (5-60 commits; criss-cross ladders, multi-parent merges, duplicate parents, several roots); all ordered pairs when the "
         "graph has <= 9 commits, otherwise ~110 sampled ordered pairs always together with the swapped pair; specs 'b<i>' + 0-4 of ^ ^1 ^2 ^3 ^0 ~ ~n; "
         "non-trivial = some pair has a merge base different from both commits; distinct by graph + salt")
